@@ -26,7 +26,10 @@ Repaired, now positive theorems (the witnesses stay in the harness corpus under 
   request: a non-object query verbatim, otherwise the (expanded) query on which a plugin failed; never the
   placeholder `{"error":"unable to display query"}` (key `pipeline/request-not-echoed`).
 Both for plugins that map objects to objects or non-empty arrays of objects — proved for grid search, inject,
-load balancer (`C06.builtin_plugins_keep_objects`), a property of the recorded data for table plugins.
+load balancer and the user-defined split / fail-on-marker plugins (`C06.builtin_plugins_keep_objects`,
+`C06.user_split_and_fail_keep_objects`), false of the user-defined invariant breaker
+(`invariant_breaker_counterexample`, finding `pipeline/invariant-error-loses-request`), a property of the
+recorded data for table plugins.
 
 Where the code still deviates (finding with counterexample; key as in the harness oracle):
 * `pipeline/sibling-responses-lost` — `C06.sibling_responses_lost_counterexample`, restated here: "the
@@ -173,8 +176,9 @@ theorem every_query_answered (plugins : List Plugin) (hw : ∀ p ∈ plugins, Ob
     (respond : Json → Json) (q : Json) : answer plugins respond q ≠ [] :=
   C06.every_query_answered plugins hw respond q
 
-/-- … in particular under every configuration made of grid search, inject and load balancer -/
-theorem every_query_answered_builtin (plugins : List Plugin) (hb : ∀ p ∈ plugins, ∀ t, p ≠ .table t)
+/-- … in particular under every configuration made of grid search, inject, load balancer and the user-defined
+split / fail-on-marker plugins -/
+theorem every_query_answered_builtin (plugins : List Plugin) (hb : ∀ p ∈ plugins, p.wellBehaved = true)
     (respond : Json → Json) (q : Json) : answer plugins respond q ≠ [] :=
   C06.every_query_answered plugins (fun p hp => processT_objOp p (hb p hp)) respond q
 
@@ -266,6 +270,31 @@ theorem own_plugins_fail_clean (p : Plugin) (q : Json) (e : PErr) (h : processT 
       simp only [hc, addWeight] at h
       cases q <;> simp at h <;> (subst h; rfl)
   | table t => exact absurd rfl (hp t)
+  | userSplit key =>
+    simp only [processT, userT] at h
+    cases q with
+    | obj kvs =>
+      simp only at h
+      split at h <;> simp at h
+    | _ => simp at h
+  | userFailOn m =>
+    simp only [processT, userT] at h
+    cases hm : q.get? m with
+    | some v => simp only [hm, Except.error.injEq] at h; subst h; rfl
+    | none => simp [hm] at h
+  | userBreaker key =>
+    simp only [processT, userT] at h
+    split at h <;> simp at h
+
+/-- without the hypothesis the statement is false: a user-defined plugin that answers with the empty array
+erases the query (no response at all), and one that leaves a scalar makes the pipeline answer with the
+placeholder request (**finding `pipeline/invariant-error-loses-request`**) — neither panics -/
+theorem invariant_breaker_counterexample (respond : Json → Json) :
+    answer [.userBreaker "break"] respond (.obj [("break", .str "empty")]) = [] ∧
+    answer [.userBreaker "break"] respond (.obj [("break", .str "scalar")])
+      = [.obj [("request", noRequest), ("error", .str invariantKind)]] ∧
+    (∀ q, ∃ r, prepO [.userBreaker "break"] q = .ok r) :=
+  ⟨by rfl, by rfl, fun q => ⟨_, prepO_eq _ q⟩⟩
 
 /-- **Finding `pipeline/sibling-responses-lost`** (C06): one failing expanded query takes its siblings with
 it — "the remaining queries are served" fails for them -/
